@@ -128,6 +128,9 @@ SEEDS = {
  "S44-c02-noncontributing-unset-prev-in-result": dict(prop="C02", origin="independent sub-agent",
     change="compute_fields: a NonContributing event gets its prev_in_result unset",
     needs="operands sharing a boundary segment and a result ring that must be a hole looking straight down onto that segment"),
+ "S45-c03-recursive-get-next-pos": dict(prop="C03", origin="independent sub-agent",
+    change="connect_edges: get_next_pos becomes self-recursive (one stack frame per processed event it steps over at a vertex)",
+    needs="one vertex where very many result edges meet: e.g. 150 000 disjoint triangles touching only in the origin, united with a small triangle at the origin"),
  "S27-c06-empty-clipping-early-return": dict(prop="C06", origin="independent sub-agent",
     change="boolean_operation: early return of the subject when the clipping operand has no polygons, regardless of the operation",
     needs="intersection with an empty MultiPolygon on the right-hand side"),
